@@ -284,6 +284,14 @@ def check_property(pid, tier, seed):
     cov['correspondence_mismatches'] = len(mismatches)
     cov['known_findings_seen'] = sorted(seen_known)
     write_evidence(pid, ev)
+    if tier == 'thorough':
+        # thorough case files can be hundreds of MB: keep the disk clean (replay files hold what is needed)
+        for fn in os.listdir(workdir):
+            if fn.startswith('cases') and fn.endswith('.txt'):
+                try:
+                    os.remove(os.path.join(workdir, fn))
+                except OSError:
+                    pass
     print('%s %s: theorems %d/%d, cases %d, distinct non-trivial %d, mismatches %d, monitor hits %d, %.1fs' %
           (pid, tier, discharged, obligations, len(cases), len(nontrivial), len(mismatches), len(monitor_hits), ev['wall_s']))
     return rc
